@@ -19,6 +19,20 @@ VERIF = os.path.dirname(os.path.abspath(__file__))
 PY = "/venv/bin/python"
 
 
+def _run(cmd, timeout, **kw):
+    """subprocess.run with a hard timeout that also kills the worker processes of the child."""
+    import signal
+    p = subprocess.Popen(cmd, stdout=subprocess.PIPE, stderr=subprocess.PIPE, text=True,
+                         start_new_session=True, **kw)
+    try:
+        out, err = p.communicate(timeout=timeout)
+        return subprocess.CompletedProcess(cmd, p.returncode, out, err)
+    except subprocess.TimeoutExpired:
+        os.killpg(p.pid, signal.SIGKILL)
+        out, err = p.communicate()
+        return subprocess.CompletedProcess(cmd, 124, out, (err or "") + f"\nTIMEOUT after {timeout}s")
+
+
 def scratch(patch):
     d = tempfile.mkdtemp(prefix="seeded-")
     for sub in ("odxtools", "examples", "tests", "pyproject.toml"):
@@ -37,8 +51,7 @@ def scratch(patch):
 
 def run_tests(d):
     env = dict(os.environ, PYTHONPATH=d)
-    r = subprocess.run([PY, "-m", "pytest", "-q", "-p", "no:cacheprovider", "-x", "tests"], cwd=d, env=env,
-                       capture_output=True, text=True)
+    r = _run([PY, "-m", "pytest", "-q", "-p", "no:cacheprovider", "-x", "tests"], 900, cwd=d, env=env)
     tail = [l for l in r.stdout.splitlines() if "passed" in l or "failed" in l]
     return r.returncode, (tail[-1] if tail else r.stdout[-200:])
 
@@ -51,15 +64,13 @@ def run_demo(d, demo):
     shutil.copy(demo, os.path.join(place, "demo.py"))
     demo = os.path.join(place, "demo.py")
     env = dict(os.environ, PYTHONPATH=d)
-    r = subprocess.run([PY, demo], cwd=os.path.dirname(demo), env=env, capture_output=True, text=True,
-                       timeout=300)
+    r = _run([PY, demo], 300, cwd=os.path.dirname(demo), env=env)
     return r.returncode, (r.stdout + r.stderr)[-400:]
 
 
 def run_check(d, cid, tier="quick"):
     env = dict(os.environ, VERIF_REPO=d, VERIF_NO_EVIDENCE="1")
-    r = subprocess.run([os.path.join(VERIF, "check"), cid, "--tier", tier], cwd=VERIF, env=env,
-                       capture_output=True, text=True)
+    r = _run([os.path.join(VERIF, "check"), cid, "--tier", tier], 1500, cwd=VERIF, env=env)
     sigs = [l.strip() for l in r.stderr.splitlines() if l.strip().startswith("signature=")]
     last = [l for l in r.stdout.splitlines() if l.startswith(cid + ":") or l.startswith("INCONCLUSIVE")]
     return r.returncode, sigs, (last[-1] if last else r.stdout[-300:])
